@@ -117,32 +117,31 @@ func uniqifyName(definitions spec.Definitions, name string) (string, bool) {
 		return name, isOAIGen
 	}
 
-	unq := true
-	for k := range definitions {
-		if strings.EqualFold(k, name) {
-			unq = false
-
-			break
-		}
-	}
-
-	if unq {
+	if !hasNameFold(definitions, name) {
 		return name, isOAIGen
 	}
 
 	name += "OAIGen"
 	isOAIGen = true
-	var idx int
 	unique := name
-	_, known := definitions[unique]
 
-	for known {
-		idx++
+	// every candidate must be unique up to letter case, like the first one
+	for idx := 1; hasNameFold(definitions, unique); idx++ {
 		unique = fmt.Sprintf("%s%d", name, idx)
-		_, known = definitions[unique]
 	}
 
 	return unique, isOAIGen
+}
+
+// hasNameFold tells if some definition bears this name, up to letter case
+func hasNameFold(definitions spec.Definitions, name string) bool {
+	for k := range definitions {
+		if strings.EqualFold(k, name) {
+			return true
+		}
+	}
+
+	return false
 }
 
 func namesFromKey(parts sortref.SplitKey, aschema *AnalyzedSchema, operations map[string]operations.OpRef) []string {
